@@ -34,16 +34,17 @@ FAULTABLE = {'open.w', 'open.r', 'f.write', 'f.flush', 'f.close.w', 'f.truncate'
 # scenarios
 
 class Scenario:
-    def __init__(self, name, setup, op, config=None, universe=None, tags=()):
+    def __init__(self, name, setup, op, config=None, universe=None, tags=(), thresholds=None):
         self.name = name
         self.setup = list(setup)
         self.op = op
         self.config = dict(config or {})
         self.universe = universe
         self.tags = set(tags)
+        self.thresholds = thresholds       # lowered (_IN_SQL_MAX_LENGTH, _MAX_CHUNK_ITERATE_LENGTH) or None
 
     def key(self):
-        return {'name': self.name, 'setup': self.setup, 'op': self.op, 'config': self.config}
+        return {'name': self.name, 'setup': self.setup, 'op': self.op, 'config': self.config, 'thresholds': self.thresholds}
 
 
 N = 4   # index of an extra "new" content in the 5-element universe used by crash scenarios
@@ -126,6 +127,12 @@ def scenarios(tier: str):
     out.append(Scenario('topack-append-to-existing@partial-pack', PRE['partial-pack'], ('topack', (N, 0), False, False, True), universe=universe5(), tags=('quick',)))
     out.append(Scenario('import-same-append@partial-pack', PRE['partial-pack'], ('import', (N, 3), False, 104857600, 'same'), universe=universe5(), tags=('quick',)))
     out.append(Scenario('pack-append@partial-pack', PRE['partial-pack'], ('pack', 'NO', True, True), universe=universe5(), tags=('quick',)))
+    # internal batch size lowered to 2: operations that work in batches of _IN_SQL_MAX_LENGTH go through several batches
+    out.append(Scenario('topack-batch-lowIN@mixed', PRE['mixed'], ('topack', (N, 2, 0, 1), False, False, True), universe=universe5(),
+                        tags=('quick',), thresholds=(2, 9500)))
+    out.append(Scenario('pack-lowIN@all-loose', PRE['all-loose'], ('pack', 'YES', True, True), universe=universe5(), tags=('quick',), thresholds=(2, 9500)))
+    out.append(Scenario('delete-lowIN@packed-holes', PRE['packed-holes'], ('delete', (1, 3, 0)), universe=universe5(), tags=('quick',), thresholds=(1, 9500)))
+    out.append(Scenario('import-lowIN@partial-pack', PRE['partial-pack'], ('import', (N, 0, 3, 2), True, 20, 'other'), universe=universe5(), tags=(), thresholds=(2, 1)))
     out.append(Scenario('clean@uncommitted-rows', PRE['uncommitted-rows'], ('clean', False), universe=universe5(), tags=('quick', 'uncommitted')))
     out.append(Scenario('pack@uncommitted-rows', PRE['uncommitted-rows'], ('pack', 'NO', True, True), universe=universe5(), tags=('uncommitted',)))
     out.append(Scenario('add-damaged-truncated-copy@mixed', PRE['mixed'] + [('damage', 2)], ('adds', 2), universe=universe5(), tags=('quick', 'damaged')))
@@ -140,7 +147,7 @@ def scenarios(tier: str):
         for cfg_name, cfg in (('p0-sha1', {'loose_prefix_len': 0, 'hash_type': 'sha1'}), ('bigpack-zlib9', {'pack_size_target': 4 * 1024 ** 3, 'compression_algorithm': 'zlib+9'}),
                               ('p3-target60', {'loose_prefix_len': 3, 'pack_size_target': 60})):
             for s in out:
-                extra.append(Scenario(f'{s.name}[{cfg_name}]', s.setup, s.op, config=cfg, universe=s.universe, tags=s.tags))
+                extra.append(Scenario(f'{s.name}[{cfg_name}]', s.setup, s.op, config=cfg, universe=s.universe, tags=s.tags, thresholds=s.thresholds))
         out += extra
     return out
 
@@ -211,6 +218,7 @@ def _copy_tree(src, dst, synced):
 
 
 def _build(sc: Scenario):
+    Container._IN_SQL_MAX_LENGTH, Container._MAX_CHUNK_ITERATE_LENGTH = sc.thresholds or (950, 9500)
     w = World(config=sc.config, universe=sc.universe)
     for op in sc.setup:
         if op[0] == 'damage':
